@@ -17,6 +17,9 @@ var planShapes = []string{
 	"abs(m)", "clamp_min(m, scalar(n{a=\"1\"}))", "clamp(m, 0, 5)", "-m", "sum(-m)", "m @ 3700", "sum(m @ end()) + n",
 	"histogram_quantile(0.9, h_bucket)", "scalar(sum(m))", "vector(time())", "time()", "sum(rate(m[1m])) by (a) / on (a) sum(n) by (a)",
 	"max(m) - min(n offset 1m)", "count(m > bool 0)", "bottomk(1, m) + on (a, b, c) topk(1, m)",
+	// label handling of matches: filters keep the many-side labels, included labels are merged in
+	"m > on (a) group_left (b) n", "m == on (a) group_left (c, b) n", "n < on (b) group_right (a) m", "m != ignoring (b, c) group_left (c) n",
+	"m >= on (a) group_left (Z) n", "m + on (a) group_left (b, c) n", "m <= bool on (a) group_left (b) n", "m and on (a) n",
 }
 
 func drawFaultCase(t *rapid.T) *core.Case {
